@@ -503,6 +503,8 @@ def _(c):
         ok_xy = ok_xy and D.eop.x == x and D.eop.y == y
         want = [v for m, v in leap if m <= mjd][-1]
         ok_tai = ok_tai and D.eop.tai_utc == want
+        # ... also at 0 h of the day itself: a leap second is in force from the first instant of the day it is tabulated for
+        ok_tai = ok_tai and Date(mjd, 0.0).eop.tai_utc == want
     c.ensure("rows_read", len(rows) > 15000)
     c.ensure("ut1_utc_as_tabulated", ok_ut1)
     c.ensure("pole_as_tabulated", ok_xy)
